@@ -755,6 +755,20 @@ class Oracle:
                 self.icall(f'UnitQuaternion.interp:shortest={sh}', 'Q', 'UnitQuaternion', lambda: uq_raw(dq).interp(s, shortest=sh).data,
                            [(dq, 'Q')], np.r_[dq, s, th], multi=True)
             self.icall('UnitQuaternion.interp:vector-s', 'Q', 'UnitQuaternion', lambda: uq_raw(dq).interp(sv).data, [(dq, 'Q')], np.r_[dq, sv, th], multi=True)
+            if i % 6 == 0:
+                # the long way round: relative rotation just short of a FULL turn (q0 . q1 within 1e-5 .. 1e-14 of -1, never exactly antipodal):
+                # slerp divides by sin(theta_0) ~ 0 there, the value it returns still has to be a unit quaternion
+                thf = 2 * math.pi - log_uniform(rng, 1e-7, 1e-2)
+                dqf = np.r_[math.cos(thf / 2), math.sin(thf / 2) * ax]
+                q1f = hamilton(q0, dqf)
+                q1f /= np.linalg.norm(q1f)
+                sf = float(rng.uniform(0.05, 0.95))
+                U1f = uq_raw(q1f)
+                for sh in (False, True):
+                    self.icall(f'UnitQuaternion.interp:nearly-full-turn:dest:shortest={sh}', 'Q', 'UnitQuaternion', lambda: U0.interp(sf, dest=U1f, shortest=sh).data,
+                               [(q0, 'Q'), (q1f, 'Q')], np.r_[q0, q1f, sf, thf], multi=True)
+                    self.icall(f'UnitQuaternion.interp:nearly-full-turn:shortest={sh}', 'Q', 'UnitQuaternion', lambda: uq_raw(dqf).interp(sf, shortest=sh).data,
+                               [(dqf, 'Q')], np.r_[dqf, sf, thf], multi=True)
             self.icall('UnitQuaternion.interp:multi', 'Q', 'UnitQuaternion', lambda: UnitQuaternion([q0, q1], check=False).interp(s, shortest=True).data,
                        [(q0, 'Q'), (q1, 'Q')], inp, multi=True)
             # ---- 3-D poses: T1 = T0 * (rotation by th), translations up to 1e6
